@@ -75,17 +75,27 @@ func Reset() {
 	Obs = nil
 }
 
-func next(w int) uint64 {
+// engine-internal stub inputs (random words, salts, clock readings) are recorded in the same sequence as the
+// harness inputs; natively they are not consumed through vx (the real library draws its own), so a request
+// for a harness input skips over them, and the SteerRand source asks for them by name.
+var stubNames = map[string]bool{"rand_Uint64": true, "rand_Int63": true, "rand_Uint32": true, "rand_Int31": true, "rand_n": true,
+	"crand_byte": true, "crand_int": true, "time_wall": true, "time_ext": true, "unixnano": true, "time_sub": true,
+	"elapsed_ms": true, "duration": true, "oob_mem": true}
+
+func nextNamed(name string, stub bool) uint64 {
 	load()
-	if inPos >= len(rp.Inputs) {
-		// inputs created after the point of failure are unconstrained
+	for inPos < len(rp.Inputs) {
+		v := rp.Inputs[inPos]
 		inPos++
-		return 0
+		if stubNames[v.Name] != stub {
+			continue
+		}
+		return v.V
 	}
-	v := rp.Inputs[inPos]
-	inPos++
-	return v.V
+	return 0
 }
+
+func next(w int) uint64 { return nextNamed("", false) }
 
 func Int(name string) int       { return int(int64(next(64))) }
 func Int64(name string) int64   { return int64(next(64)) }
@@ -137,9 +147,12 @@ type assumeFailed struct{}
 // do not belong to the path that was recorded).
 func Assume(b bool) {
 	if !b {
-		panic(assumeFailed{})
+		assumeEnded = true
+		runtime.Goexit() // ends the replay without a panic that harness-level recover() could mistake for a library panic
 	}
 }
+
+var assumeEnded bool
 
 func Assert(b bool, msg string) {
 	if !b {
@@ -158,7 +171,7 @@ func Fail(msg, sig string) { Failures = append(Failures, msg) }
 func Cover(label string) {}
 
 // Done ends the path.
-func Done() { panic(assumeFailed{}) }
+func Done() { assumeEnded = true; runtime.Goexit() }
 
 // Concrete forces a value to be enumerated concretely by the engine.
 func Concrete(x int) int { return x }
@@ -319,27 +332,29 @@ func toU64(v any) uint64 {
 	panic(fmt.Sprintf("vx.Observe: unsupported %T", v))
 }
 
-// Run executes a harness natively and reports what happened.
-func Run(h func()) (failures []string, obs []string, panicked any, assumeEnded bool) {
+// Last* hold the outcome of the most recent Run (a harness may end through runtime.Goexit).
+var (
+	LastFailures []string
+	LastObs      []string
+	LastPanic    any
+	LastAssume   bool
+)
+
+// Run executes a harness natively; the outcome is left in the Last* variables.  Call it on a goroutine of its
+// own and wait for that goroutine to end.
+func Run(h func()) {
 	Reset()
+	assumeEnded = false
+	LastFailures, LastObs, LastPanic, LastAssume = nil, nil, nil, false
 	defer func() {
-		failures, obs = Failures, Obs
+		LastFailures, LastObs, LastAssume = Failures, Obs, assumeEnded
 		if x := recover(); x != nil {
 			if _, ok := x.(assumeFailed); ok {
-				assumeEnded = true
+				LastAssume = true
 				return
 			}
-			panicked = x
+			LastPanic = x
 		}
 	}()
 	h()
-	return
 }
-
-// SteerRand makes the library object's private *math/rand.Rand field (found by type, not by name) draw its
-// words from the replay file, so that internal random choices (skip-list tower heights) follow the
-// counterexample.  No-op under the engine, where math/rand is a symbolic stub.
-func SteerRand(obj any) { steerRand(obj) }
-
-// Gate is a scheduling point under the engine (other goroutines may run here); natively it yields.
-func Gate() { runtime.Gosched() }
